@@ -360,6 +360,65 @@ def real_frame(case):
             'collection': [[str(k), str(f)] for k, f in tr.transformer_collection.items()]}
 
 
+def real_frame_reused(first, case):
+    """ONE FeatureTransformerGeneric instance serving two batches (a library caller's loop): the result for `case` after the
+    instance has constructed features for `first` (same columns, same row count)"""
+    import warnings
+
+    import pandas as pd
+    from outrank.feature_transformations.ranking_transformers import FeatureTransformerGeneric
+    try:
+        tr = FeatureTransformerGeneric(set(case['cols']), preset=case['preset'])
+        out = None
+        for c in (first, case):
+            data = {k: list(v) for k, v in c.get('other', {}).items()}
+            data.update({k: list(v) for k, v in c['cols'].items()})
+            with np.errstate(all='ignore'), warnings.catch_warnings():
+                warnings.simplefilter('ignore')
+                out = tr.construct_new_features(pd.DataFrame(data, dtype=object))
+    except Exception as ex:                                  # noqa: BLE001
+        return {'exc': f'{type(ex).__name__}: {ex}'}
+    ncol = len(data)
+    new = {}
+    for j in range(ncol, out.shape[1]):
+        new.setdefault(str(out.columns[j]), []).append([str(x) for x in out.iloc[:, j].tolist()])
+    return {'new': new}
+
+
+def eval_reuse(ctx: Ctx, pairs):
+    """the emitted columns of a batch depend on that batch only: a transformer object that served another batch before must give
+    exactly what a fresh one gives (same emitted set, same cells)"""
+    for first, case in pairs:
+        ctx.evaluations += 1
+        ctx.count('transformer-instance-reused')
+        fresh, again = real_frame(case), real_frame_reused(first, case)
+        if 'exc' in fresh or 'exc' in again:
+            if ('exc' in fresh) != ('exc' in again):
+                ctx.oracle_fail('reuse', f'preset={case["preset"]!r}: a fresh transformer gives {str(fresh.get("exc", "columns"))[:80]}, one that served {first["cols"]} '
+                                f'before gives {str(again.get("exc", "columns"))[:80]} on {case["cols"]}', {'reuse': [first, case]})
+            continue
+        if fresh['new'] != again['new']:
+            extra = sorted(set(again['new']) - set(fresh['new']))
+            missing = sorted(set(fresh['new']) - set(again['new']))
+            diff = [k for k in fresh['new'] if k in again['new'] and fresh['new'][k] != again['new'][k]]
+            ctx.oracle_fail('reuse', f'preset={case["preset"]!r}, columns {case["cols"]}: a transformer object that constructed features for {first["cols"]} before '
+                            f'emits other columns than a fresh one: extra {extra[:4]}, missing {missing[:4]}, different cells in {diff[:4]}', {'reuse': [first, case]})
+
+
+def gen_reuse(rng):
+    for _ in range(100):
+        a, b = gen_frame(rng, False), gen_frame(rng, False)
+        n = len(next(iter(a['cols'].values())))
+        if len(next(iter(b['cols'].values()))) == n and len(a['cols']) >= 1:
+            names = list(a['cols'])
+            vals = list(b['cols'].values())
+            b = dict(b, preset=a['preset'], cols={nm: vals[i % len(vals)] for i, nm in enumerate(names)}, other={})
+            a = dict(a, other={})
+            return a, b
+    a = gen_frame(rng, False)
+    return dict(a, other={}), dict(a, other={})
+
+
 def close(a: str, b: str) -> bool:
     if a == b:
         return True
@@ -832,6 +891,7 @@ def run(ctx: Ctx):
     cases = corpus() + select_cases(rng, ctx.thorough()) + [gen_long_frame(rng) for _ in range(6 if ctx.thorough() else 2)]
     cases += [gen_frame(rng, ctx.thorough()) for _ in range(4000 if ctx.thorough() else 400)]
     evaluate(ctx, cases)
+    eval_reuse(ctx, [gen_reuse(rng) for _ in range(1500 if ctx.thorough() else 200)])
 
 
 def search(ctx: Ctx):
@@ -841,9 +901,13 @@ def search(ctx: Ctx):
     sub.rng.seed(f'search:{ctx.seed}')
     cases = corpus() + select_cases(sub.rng, True) + [gen_frame(sub.rng, True) for _ in range(600)] + [gen_long_frame(sub.rng) for _ in range(4)]
     evaluate(sub, cases, oracle_only=True)
+    eval_reuse(sub, [gen_reuse(sub.rng) for _ in range(600)])
     return sub.oracle_failures
 
 
 def replay(ctx: Ctx, payload):
     logging.disable(logging.INFO)
+    if isinstance(payload['case'], dict) and 'reuse' in payload['case']:
+        eval_reuse(ctx, [tuple(payload['case']['reuse'])])
+        return
     evaluate(ctx, [payload['case']])
